@@ -149,6 +149,55 @@ TRIGGERS = {
             'of "is None"',
             'asend() of a falsy non-None object into a decorated async '
             'generator: the body receives None'),
+ 'S2-C11': ('redpep484585itemsview.py: ItemsView child hints unpacked without '
+            'the validating getter',
+            'ItemsView subscripted with the wrong number of child hints '
+            '(ItemsView[int], ItemsView[int, str, bytes]), root or nested: '
+            'bare ValueError leaks'),
+ 'S2-C13': ('utilcacheobjattr.py: per-class memo keyed by module.qualname '
+            'instead of the class object',
+            'two distinct classes with the same module and qualname under an '
+            'already decorated ancestor (class factory, type() twice): the '
+            'second is taken for "already decorated" and left untouched'),
+ 'S2-C15': ('utilmapunbounded.py: lock-free lookup before the lock, no '
+            're-check inside (TypeHint singleton cache)',
+            'two threads wrapping an equal not-yet-cached hint with a switch '
+            'between the lookup and the store: two distinct TypeHint objects '
+            'for equal hints'),
+ 'S2-C16': ('clawastassign.py: the conf= lookup of injected PEP 526 checks is '
+            'dropped for the hook-default configuration (bytecode shape no '
+            'longer encoded by the marker)',
+            'a default-conf run on a cold cache followed by a run under a '
+            'custom conf with the same marker (violation types, tower ...): '
+            'annotated assignments are checked under the default conf'),
+ 'S2-C18': ('codemain.py: make_check_expr memo key omits conf.hint_overrides',
+            'the same root hint with an overridden hint nested below the '
+            'root, checked in one process under two confs with different '
+            'hint_overrides: the second reuses the first one\'s code'),
+ 'S2-C19': ('doorsuper.py: arity check compares a length with itself',
+            'two subscripted hints whose origins are subclass-related but '
+            'take different numbers of parameters (Counter[str] vs '
+            'Mapping[str, str], ItemsView[K, V] vs Collection[K]): is_subhint '
+            'answers True from the common prefix instead of raising'),
+ 'S2-C12': ('_valeisobj.py: the walrus temporary of IsAttr no longer carries '
+            'the object prefix (one name per attribute name)',
+            'IsAttr[n, IsAttr[n, X] & Y]: the inner walrus rebinds the shared '
+            'temporary, the trailing sibling Y is evaluated on obj.n.n'),
+ 'S2-C14': ('decortype.py: a class whose redefinition was detected is not '
+            're-registered',
+            'a decorated class hot-reloaded at least twice under a long-lived '
+            'decorated callable naming it by an absolute forward reference: '
+            'every second redefinition clears no cache, the callable keeps '
+            'checking against the previous class'),
+ 'S2-C17': ('conftest.py: the is_color branch of the validation chain is '
+            'entered for every non-None value and swallows the later elifs',
+            'is_color explicitly True/False together with an invalid '
+            'strategy / violation_verbosity / warning_cls_on_decorator_'
+            'exception: accepted, and memoised'),
+ 'S2-C20': ('infercollectionsabc.py: Container -> Collection transition no '
+            'longer requires __len__',
+            'an object with __contains__ and __iter__ but no __len__: '
+            'inferred as Annotated[Collection, ...], which it is not'),
  'S-C08': ('async-generator wrapper forwards only Exception subclasses via '
            'athrow()',
            'a started decorated async generator receiving athrow() of a '
@@ -224,6 +273,30 @@ HISTORY = {
            'the generator protocol forwarding); C10 now also sends falsy '
            'objects and spies into decorated generators and compares '
            'identity - caught by both',
+ 'S2-C11': 'MISSED at first contact (wrong-arity forms existed for dict, '
+           'list, tuple, type only); every subscriptable generic of '
+           'collections.abc / collections / builtins is now subscripted with '
+           'every arity 0-4 the runtime lets one build - caught',
+ 'S2-C13': 'MISSED at first contact (every generated class had a unique '
+           'name); added the factory stream (distinct classes sharing module '
+           'and qualified name under a decorated / plain / __sizeof__-'
+           'defining base, class-decorated vs member-decorated) - caught',
+ 'S2-C18': 'MISSED at first contact under machine load, caught on 3 of 3 '
+           'other seeds with 5-8 hits: detection depended on one root hint '
+           'meeting two override sets by chance. Every override case now '
+           're-checks the same root hint under a second configuration '
+           'overriding the same keys differently, then under the first again '
+           '- caught with 80+ hits',
+ 'S2-C14': 'MISSED at first contact (inconclusive in a first run under '
+           'machine load): no history redefined a *decorated* class, and - found '
+           'while looking into it - histories ran in a copy of the module '
+           'globals, so no forward reference ever resolved. Histories now run '
+           'in the real module globals; new hotreload family - caught',
+ 'S2-C20': 'MISSED at first contact (user-defined containers were full '
+           'collections.abc subclasses only); added duck-typed classes with '
+           'arbitrary subsets of the protocol methods. They found a genuine '
+           'defect on the unchanged tree at once (emptiness decided by '
+           'truthiness, fixed) - caught',
  'S-C10': 'MISSED by the first C10 (one-shot spies had no __len__); added '
           'PySizedIterator/PySizedIterable spies to C09 and C10 - now caught',
 }
